@@ -1406,15 +1406,37 @@ def check_always_emits(run, rule):
         fname = "%s(%s)" % (nm, ",".join(f["sig"]))
         bad = 0
         nret = 0
-        for st, g, loops in gs:
-            if st.get("k") != "Return":
-                continue
+        # loop-free functions are judged path by path: `if (c) { emit } else { }  return n;` has a path that stores nothing
+        from . import C05 as _C05
+        pths = _C05._paths(ir.stmts(f["body"]))
+        emit_ids = set(id(x) for x in emit_nodes)
+        cases = []
+        if pths is not None:
+            for pth in pths:
+                if not pth or pth[-1][0] != "return":
+                    continue
+                if any(id(x) in emit_ids for ev in pth for x in ir.walk(ev[1])):
+                    nret += 1
+                    continue
+                atoms = []
+                for ev in pth:
+                    if ev[0] == "cond":
+                        fm = cond(ev[1], env)
+                        atoms += conjuncts(fm if ev[2] else ir.f_not(fm))
+                cases.append((pth[-1][1], ("and",) + tuple(atoms) if atoms else ("T",)))
+        else:
+            for st, g, loops in gs:
+                if st.get("k") != "Return":
+                    continue
+                # an emission is on this return's path when it comes earlier and its guard can hold together with the return's
+                before = [x for x in emit_nodes if order[id(x)] < order[id(st)] and not contradict(guard_at.get(id(x), ("T",)), g)]
+                inside = [x for x in emit_nodes if any(y is x for y in ir.walk(st))]
+                if before or inside:
+                    nret += 1
+                    continue
+                cases.append((st, g))
+        for st, g in cases:
             nret += 1
-            # an emission is on this return's path when it comes earlier and its guard can hold together with the return's
-            before = [x for x in emit_nodes if order[id(x)] < order[id(st)] and not contradict(guard_at.get(id(x), ("T",)), g)]
-            inside = [x for x in emit_nodes if any(y is x for y in ir.walk(st))]
-            if before or inside:
-                continue
             extra = []
             for a in conjuncts(g):
                 if a[0] == "not" and a[1][0] == "nz" and str(a[1][1]).startswith("p:") and "*" in (next((p_["t"] for p_ in f["params"] if "p:" + p_["n"] == a[1][1]), "")):
@@ -1431,6 +1453,10 @@ def check_always_emits(run, rule):
                 if ("this.flush_buffer()" in repr(a) or flush_local) and any(b_[0] == "cmp" and b_[1] == "<" and b_[2] == "this.m_avail" for b_ in conjuncts(g)):
                     continue      # `m_avail < k && flush_buffer() == 0`: no space, and flushing freed none (R06.4 decides what flush_buffer reports)
                 extra.append(a)
+            if not extra and pths is not None and not any(
+                    (a[0] == "not" and a[1][0] == "nz" and str(a[1][1]).startswith("p:")) or (a[0] == "cmp" and "this.m_avail" in (a[2], a[3])) or
+                    "flush_buffer" in repr(a) for a in conjuncts(g) if isinstance(a, tuple) and len(a) > 1):
+                extra = [("T",)] if g == ("T",) else list(conjuncts(g))       # a path with no refusal reason at all
             if extra:
                 bad += 1
                 run.ob(rule, "%s:return-before-emission@%s" % (fname, show_f(g)[:60]), False, f, st.get("l", 0),
